@@ -233,6 +233,57 @@ fn e2e(x: &Interface<'_>, tree: &GIface, rep: &mut Report) {
                 rep.violation(&format!("C14/e2e-client-parsed-something-else-than-the-service-described:{class}"), at, replay(tree, "e2e"));
             } else {
                 rep.count("e2e_ok");
+                e2e_chain(x, tree, &want, rep);
+            }
+        }
+    }
+}
+
+/// The same exchange through the chain API of the standard interface (`chain_get_interface_description`, replies typed
+/// `varlink_service::Reply`): what the client parses must again be what the service described.
+fn e2e_chain(x: &Interface<'_>, tree: &GIface, want: &GIface, rep: &mut Report) {
+    use futures_util::StreamExt;
+    rep.eval(vnet::fnv(format!("e2e-chain{tree:?}").as_bytes()));
+    let cw = new_wire(0);
+    let sw = new_wire(1);
+    let mut client = Connection::new(VSocket(cw.clone()));
+    let mut server = Connection::new(VSocket(sw.clone()));
+    let res = vnet::catch(|| {
+        let chain = client.chain_get_interface_description::<varlink_service::Reply<'_>, varlink_service::Error>(&tree.name).map_err(|e| format!("client could not start the chain: {e:?}"))?;
+        let stream = vnet::block_on(chain.send(), 4).ok_or("client write stalled")?.map_err(|e| format!("client could not send: {e:?}"))?;
+        let mut stream = core::pin::pin!(stream);
+        sw.borrow_mut().push(Rx::Bytes(cw.borrow().written()));
+        let call = vnet::block_on(server.receive_call::<varlink_service::Method<'_>>(), 4).ok_or("server stalled")?.map_err(|e| format!("server could not decode the call: {e:?}"))?;
+        match call.method() {
+            varlink_service::Method::GetInterfaceDescription { interface } if *interface == tree.name => {}
+            other => return Err(format!("server received {other:?}")),
+        }
+        let desc = InterfaceDescription::from(x);
+        vnet::block_on(server.send_reply(&Reply::new(Some(desc)).set_continues(None)), 4).ok_or("server write stalled")?.map_err(|e| format!("server could not send: {e:?}"))?;
+        cw.borrow_mut().push(Rx::Bytes(sw.borrow().written()));
+        match vnet::block_on(stream.next(), 4) {
+            None => Err("client stalled although the reply was delivered".to_string()),
+            Some(None) => Err("the chain's stream ended without the reply".to_string()),
+            Some(Some(Err(e))) => Err(format!("client: {e:?}")),
+            Some(Some(Ok(Err(e)))) => Err(format!("client: method error {e:?}")),
+            Some(Some(Ok(Ok(r)))) => match r.parameters() {
+                Some(varlink_service::Reply::InterfaceDescription(d)) => match d.parse() {
+                    Err(e) => Err(format!("client could not parse the description: {e:?}; raw {:?}", d.as_raw())),
+                    Ok(y) => Ok(from_iface(&y)),
+                },
+                other => Err(format!("client received {other:?} instead of a description")),
+            },
+        }
+    });
+    match res {
+        Err(p) => rep.violation("C14/e2e-panics", format!("panic (chain): {p}"), replay(tree, "e2e-chain")),
+        Ok(Err(e)) => rep.violation("C14/e2e-exchange-through-a-chain-failed", e, replay(tree, "e2e-chain")),
+        Ok(Ok(got)) => {
+            if &got != want {
+                let (class, at) = classify(&got, want);
+                rep.violation(&format!("C14/e2e-client-parsed-something-else-than-the-service-described:{class}"), format!("(chain) {at}"), replay(tree, "e2e-chain"));
+            } else {
+                rep.count("e2e_through_a_chain_ok");
             }
         }
     }
